@@ -35,13 +35,17 @@ claim(
     "linked (as wildcard expansion does), under every order of resolve_target() calls (610 histories quick, about 17000 thorough): only "
     "the two alias errors are raised, a call that returns leaves the whole chain resolved, a call that raises leaves the alias unresolved, "
     "a chain that reaches an object resolves, a second pass changes nothing, evaluation stays within step and depth budgets. Graphs over "
-    "more names and several packages loaded in different orders are not decided.",
+    "more names are not decided. Also decided: every package of two modules (three in the thorough tier, 16000 packages) in which each "
+    "module defines, imports or lacks a name and may star-import a sibling or itself goes through expand_exports, expand_wildcards and two "
+    "rounds of resolve_aliases without raising, the second round changes nothing, and no imported alias is left resolved with an "
+    "unresolvable chain; no recursion between properties passes through an alias proxy; the dataclasses extension (run by load()) "
+    "dereferences no possibly-alias member unguarded. Several packages loaded in different orders and external=True loads are not decided.",
     TB + "; tabled dereference exceptions each carry a reason in sa/rules/C06.py",
 )
 claim(
     "C16",
     "bounded-exhaustive abstract evaluation of griffe's own code (the checker's evaluator interprets the ASTs of the current source on "
-    'an enumerated finite domain): every operation sequence up to the bound (19 operations: set / delete by name, dotted path, tuple '
+    'an enumerated finite domain): every operation sequence up to the bound (20 operations: moving a subtree, set / delete by name, dotted path, tuple '
     'and item syntax, with objects, aliases, dangling and self-targeting aliases, alias resolution) on a universe built with the '
     "models' own constructors, against a dictionary model; effect ownership of members stores; store/parent pairing, alias registration "
     'and retargeting typestate on the CFG',
@@ -59,7 +63,8 @@ claim(
     "The decision table of the parameter-breakage rule set is total over all abstract signature pairs with up to one (quick) / two "
     "(thorough, 37k pairs) parameters: silence on identity, soundness of every yield, always-reported changes, and completeness against "
     "the calling convention (every call shape up to arity+1 with every keyword subset). Any logically equivalent rewrite of the conditions "
-    "passes; any changed row is the witness. Interplay of three or more parameters and expression-valued defaults are outside the domain.",
+    "passes; any changed row is the witness. Every one-parameter transition is also decided with `*args, **kwargs` next to the regular "
+    "parameters. Other interplays of three or more parameters and expression-valued defaults are outside the domain.",
     TB + "; CPython's own function-call binder is the reference for 'binds'; variadics carry the marker defaults griffe's agents store",
 )
 claim(
@@ -88,7 +93,8 @@ claim(
     "On every path: every breakage of the member walk is dominated by is_public and the walk uses all_members on both sides; the type "
     "dispatch table is total and routes alias/kind-mismatch/same-kind cases as documented; removal, base and value rules equal their "
     "tables; no alias error can escape the comparison or the rendering of a breakage reported against an unresolvable re-export (which "
-    "names the alias's own public path); explain() returns for every class, payload (string or expression bases included) and style; each breakage kind/style has its class/method; the CLI loads old from `against`, "
+    "names the alias's own public path); an object already compared and reached again through another member is compared against that "
+    "member's new object; explain() returns for every class, payload (string or expression bases included) and style; each breakage kind/style has its class/method; the CLI loads old from `against`, "
     "new from `base_ref`/tree, prints every breakage and exits 1 exactly when there is one; is_public equals the documented table. "
     "Silence after arbitrary compatible edit scripts is not decided.",
     TB,
@@ -130,7 +136,7 @@ claim(
     'Decided: per kind every key the reader requires is written, every key the writer may omit is read optionally, enums are rebuilt, '
     'expression dataclasses round-trip field by field; after a reload every name in bases, decorators, signatures, annotations and '
     'values - at any nesting depth, dotted chains included - is attached to the scope the visitor builds it in; an expression '
-    'dictionary carrying `kind` is an expression, members named `kind` or `cls` load; encoder options are forwarded by both CLI arms '
+    'dictionary carrying `kind` is an expression, members named `kind` or `cls` load; docstrings reload as written, empty ones included; encoder options are forwarded by both CLI arms '
     'and `dump` never uses its path-or-name arguments as module names. Not decided: equality of arbitrary reloaded trees; full '
     '(non-minimal) dumps are an open finding.',
     TB + '; json.loads with the evaluated json_decoder as object hook',
@@ -143,7 +149,8 @@ claim(
     "Every schema obligation that can be read off the writers is decided for all object kinds, aliases, docstrings, decorators, parameters "
     "and docstring sections: anything the schema requires is always written, anything written is declared, every JSON shape a value can "
     "take is allowed, every section kind the code can emit is listed and is written as the schema's string for each section class; "
-    "relative_package_filepath is the path below the top package for every layout the loader builds. Validation of concrete generated "
+    "relative_package_filepath is the path below the top package for every layout the loader builds; the kind of a synthesised dataclass "
+    "parameter is a ParameterKind member on every path; Alias.as_dict raises no alias error. Validation of concrete generated "
     "dumps is not performed.",
     TB + "; docs/schema.json is read at run time; provenance tables (decorator linenos, parameter kinds) are verified structurally",
 )
@@ -159,7 +166,8 @@ claim(
     "stubs, runtime docstrings kept and missing ones - the module's own included - taken from the stubs, runtime-only members kept; no "
     'alias error can escape a merge; a stub definition whose name the stub scope also imports is merged like any other; stubs merged '
     "into an alias reach its target; _load_package expands the runtime module's wildcard imports (private sibling allowed) after loading "
-    'it and before loading its stubs, for every layout.',
+    'it and before loading its stubs, for every layout; a runtime member re-exported through two imports receives the stubs at the end '
+    'of the chain; the stubs-only package is found by the top-level name for dotted object paths.',
     TB + '',
 )
 claim(
@@ -169,7 +177,9 @@ claim(
     "abstract evaluation of griffe's own code (the checker's evaluator interprets the ASTs of the current source on an enumerated "
     'finite domain): the three parsers on every line sequence up to the bound over an alphabet of 30 line shapes',
     'Decided on every path: each while loop advances its cursor; catalogued partial operations (line indexing, constant indexes into '
-    'item lists, annotation elements, docstring.parent chains, split-unpacking, compile) cannot raise out of a parser; every title / '
+    'item lists, annotation elements, docstring.parent chains, member lookups through the parent (everything __getitem__ may raise per the '
+    'exception-flow summary, plus alias errors of the member found), split-unpacking, compile incl. unencodable text) cannot raise out of a '
+    'parser, and no griffe exception escapes safe_get_expression / parse_docstring_annotation / docstring_warning; every title / '
     'Parser member has a reader; parsers never mutate the docstring or its parent; no pattern nests ambiguous unbounded repeats. '
     'Bounded-exhaustive totality: about 9000 parses per run (all single lines and all pairs of lines after a summary; all sequences up '
     'to 3 lines in the thorough tier) x option sets that switch reader paths x parent kinds return a list of sections without raising, '
@@ -186,7 +196,8 @@ claim(
     "The resolution tables are total over the abstract scope nest x name classes (own member, import, enclosing class member, enclosing object "
     "name, __init__ parameter, unknown, module name) and over (depth, init?, level, module?) for relative imports; they are compared with "
     "Python's scoping rule / importlib. The names inside a quoted annotation are resolved in the scope it is written in and built afresh "
-    "for each occurrence; an explicit import followed or preceded by wildcard imports binds what CPython binds. Resolution raises only "
+    "for each occurrence; a name resolved once and then re-bound resolves to the new binding; the bases and decorators of a class statement are "
+    "evaluated in the scope containing it; an explicit import followed or preceded by wildcard imports binds what CPython binds. Resolution raises only "
     "NameResolutionError and the expression side swallows it. Resolution over "
     "generated multi-module packages is not decided.",
     TB + "; the reference scoping rule is written in the rule module (class scopes do not nest; functions see their class body)",
@@ -197,7 +208,8 @@ claim(
     "an enumerated finite domain): Class.mro / c3linear_merge on every hierarchy up to the bound against type()'s MRO; inherited "
     'members; resolved bases; staleness table (derived views re-read after the state changed, with functools memoisation modelled)',
     "Decided: MRO equal to CPython's (or ValueError where CPython refuses) for every hierarchy of up to 4 classes plus the five-class "
-    'three-base ones (all of 5 thorough) with every ordered choice of bases; cycles raise and a class without a computable MRO inherits '
+    'three-base ones (all of 5 thorough) with every ordered choice of bases, whatever the spelling of the paths; members that are '
+    '(un)resolved imports are inherited like definitions; cycles raise and a class without a computable MRO inherits '
     'nothing; the first provider along the MRO wins for inherited members, own members win; '
     'resolved_bases keeps every findable base in order; resolved_bases, mro(), inherited_members and all_members reflect a base loaded '
     'later or a member added later (no memoisation). Not decided: hierarchies of more than 5 classes.',
@@ -213,7 +225,7 @@ claim(
     "without overriding, three-level chains, a class whose MRO cannot be computed): the synthesised parameters (names, order, kinds, required-ness) equal those of CPython's "
     'generated __init__; a base with InitVar pseudo-fields processed in an earlier package still passes them to a class of a later '
     'package; an __init__ is synthesised only for decorated classes without one; the extension is always loaded; the memoised list is '
-    'never mutated. Three inheritance rows are open findings.',
+    'never mutated; only the standard library decorator makes a dataclass; one extension instance processes two trees with the same paths. Three inheritance rows are open findings.',
     TB + '; dataclasses.dataclass on classes synthesised by the rule is the reference',
 )
 claim(
@@ -222,12 +234,14 @@ claim(
     "conversion); bounded-exhaustive abstract evaluation of griffe's own code (the checker's evaluator interprets the ASTs of the "
     'current source on an enumerated finite domain): kind decision list, child table of generic_inspect, get_parameters vs '
     'inspect.signature, visit_importfrom and wildcard expansion vs what CPython binds, inspect_class on synthesised generic hierarchies, '
-    'handle_function on synthesised functions',
+    'handle_function on synthesised functions, ObjectNode.children on a synthesised module and class',
     "Decided: every ObjectKind has a handler, specific kinds win over general ones, the inspector announces objects with the visitor's "
     "protocol, parameters convert through a bijective kind map, the object's own __doc__ is read, children are inspected / aliased per "
     "the documented table, the static side's parameters and import aliases are what CPython binds (what the inspector observes), and "
     "inspect_class records the class's own direct bases for plain, generic, parametrised and protocol hierarchies, handle_function "
-    "records exactly the runtime signature's parameters also when postponed annotations name nothing that exists. Equality of the two "
+    "records exactly the runtime signature's parameters also when postponed annotations name nothing that exists, every name bound in a "
+    "namespace (to a built-in class, None, a constant ...) becomes a child, and what the visitor builds for a definition does not depend "
+    "on the definitions before it. Equality of the two "
     'trees on real modules is not decided.',
     TB + '; classes and functions handed to the inspector are synthesised in the rule; inspect.signature on them is the reference',
 )
@@ -240,7 +254,8 @@ claim(
     '(order-clean consumers)',
     'Decided: which file provides a package (first search path wins, directory before module file, namespace portions, stubs), that a '
     'package requested by path wins over a same-named one on the search paths, which sub-modules are listed with which dotted parts, '
-    'that a directory reachable under two names through symlinks is listed under both, that files under a directory whose name '
+    'that a directory reachable under two names through symlinks is listed under both, that a sub-package wins over a module file of '
+    'the same name, that a search path entry that is a file or is missing is skipped, that files under a directory whose name '
     'contains a dot are skipped, that .pth files add existing directories once in sorted file order, that results do not depend on the '
     'listing order, how modules are classified. Not decided: agreement with pkgutil.walk_packages on generated trees; where .pth '
     'additions go relative to later configured search paths.',
@@ -256,7 +271,8 @@ claim(
     "descriptions for each item kind, annotations from the signature vs written ones; Sphinx: type given in-line, before, after or not at all): "
     "the parsed sections, item names, annotations and descriptions equal the model (descriptions up to trailing newlines; Sphinx up to white "
     "space); defaults omitted from the docstring come from the signature in Parameters and Other Parameters under both values of "
-    "warn_unknown_params. Plus the structural rules: supported sections have readers, field prefixes cannot shadow, generator/iterator/tuple slots, block "
+    "warn_unknown_params, several names of one Numpy item each take their own; untyped Attributes take declared and inherited annotations; "
+    "text after the last Sphinx field stays out of it; console examples are left as written or trimmed as the option says. Plus the structural rules: supported sections have readers, field prefixes cannot shadow, generator/iterator/tuple slots, block "
     "readers' offset contract, stale admonition title, repeated :raises:. Documents with more than two sections after the summary, parser options "
     "other than those named above are NOT enumerated.",
     TB + "; docs/reference/docstrings.md is read at run time and is the authority for the well-formed syntax the renderer in sa/rules/C13.py emits",
